@@ -76,6 +76,7 @@ type PhasedConn struct {
 
 	mode      int // 0 plaintext, 1 TLS
 	lastPlain []byte
+	readSince bool // plaintext octets were handed out since the last plaintext write
 	c2s, s2c  bytes.Buffer
 	c2sClosed bool
 	idle      bool // the TLS client is blocked waiting for server output
@@ -122,7 +123,9 @@ func (c *PhasedConn) Read(b []byte) (int, error) {
 	}
 	if c.mode == 0 {
 		if len(c.script) == 0 {
-			if c.haveTLS && bytes.HasSuffix(c.lastPlain, startTLSReply) {
+			// the peer starts its handshake only as the very next thing after the 220: if the server has
+			// read plaintext octets since (a handshake attempt fed with left-over plaintext), nothing more comes
+			if c.haveTLS && bytes.HasSuffix(c.lastPlain, startTLSReply) && !c.readSince {
 				c.mode = 1
 				go c.runClient()
 			} else {
@@ -133,6 +136,7 @@ func (c *PhasedConn) Read(b []byte) (int, error) {
 			switch r.Kind {
 			case RawData:
 				n := copy(b, r.Data)
+				c.readSince = true
 				c.Log = append(c.Log, Raw{Kind: RawData, Data: append([]byte(nil), r.Data[:n]...)})
 				if n == len(r.Data) {
 					c.script = c.script[1:]
@@ -189,6 +193,7 @@ func (c *PhasedConn) Write(b []byte) (int, error) {
 			return len(b), nil
 		}
 		c.lastPlain = append(c.lastPlain[:0], b...)
+		c.readSince = false
 		c.mu.Unlock()
 		if c.OnWire != nil {
 			c.OnWire(b)
